@@ -19,6 +19,7 @@ import (
 	"encoding/json"
 	"errors"
 	"fmt"
+	"hash/fnv"
 	"sort"
 	"strings"
 	"sync"
@@ -381,32 +382,38 @@ func (m *c23Model) setIDAt(n int) int {
 // nextChange: block number of the earliest pending change on the chain ending in b whose effective
 // block is on that chain; ok=false: none.  ambiguous: the answer depends on whether only the first
 // pending scheduled change of the chain counts (Substrate's roots) or all of them.
-func (m *c23Model) nextChange(b int) (num int, ok bool, ambiguous bool) {
-	minOf := func(rootsOnly bool) (int, bool) {
-		best, has := 0, false
-		take := func(e int) {
-			if e <= m.depth[b] && (!has || e < best) {
+func (m *c23Model) nextChange(b int) (num int, ok bool, ambiguous bool, which string) {
+	minOf := func(rootsOnly bool) (int, bool, string) {
+		best, has, which := 0, false, ""
+		take := func(c c23Pend, kind string) {
+			if e := m.eff(c); e <= m.depth[b] && (!has || e < best) {
 				best, has = e, true
+				which = kind
+				if c.a != m.fin && m.anc(c.a, m.fin) {
+					which += "-change-announced-below-the-finalised-head"
+				} else {
+					which += "-change"
+				}
 			}
 		}
 		for _, c := range m.pS {
 			if m.anc(c.a, b) && (!rootsOnly || m.isRoot(c)) {
-				take(m.eff(c))
+				take(c, "scheduled")
 			}
 		}
 		for _, c := range m.pF {
 			if m.anc(c.a, b) {
-				take(m.eff(c))
+				take(c, "forced")
 			}
 		}
-		return best, has
+		return best, has, which
 	}
-	n1, ok1 := minOf(true)
-	n2, ok2 := minOf(false)
+	n1, ok1, w := minOf(true)
+	n2, ok2, _ := minOf(false)
 	if ok1 != ok2 || n1 != n2 {
-		return 0, false, true
+		return 0, false, true, ""
 	}
-	return n1, ok1, false
+	return n1, ok1, false, w
 }
 
 // ---------------------------------------------------------------------------------------------
@@ -549,6 +556,14 @@ type c23Env struct {
 	// set after the (soft) forced-change hand-over divergence was reported once: the real object
 	// and the model no longer agree on block-number lookups, everything else is still compared
 	noSetIDByNumber bool
+	notes           map[string]bool
+}
+
+func (e *c23Env) note(s string) {
+	if e.notes == nil {
+		e.notes = map[string]bool{}
+	}
+	e.notes[s] = true
 }
 
 func c23NewEnv(parent, ann []int, pebble bool) (*c23Env, error) {
@@ -716,6 +731,8 @@ func (e *c23Env) observe(m *c23Model, x c23Expect, ev c23Event) *c23Mismatch {
 			shape = fmt.Sprintf("scheduled-change-not-enacted(delay%d)", x.enactedS.d)
 		case int(cur) == m.setID-1 && x.enactedF != nil:
 			shape = "forced-change-not-enacted"
+		case int(cur) == m.setID+1 && ev.Kind == 'F' && x.refused:
+			shape = "change-enacted-where-substrate-refuses-the-finalisation(earlier-change-of-the-chain-still-pending)"
 		case int(cur) == m.setID+1 && ev.Kind == 'F':
 			shape = "change-enacted-that-substrate-does-not-enact"
 		case int(cur) == m.setID+1 && ev.Kind == 'I':
@@ -771,8 +788,9 @@ func (e *c23Env) observe(m *c23Model, x c23Expect, ev c23Event) *c23Mismatch {
 			if !m.above(b) {
 				continue
 			}
-			want, ok, amb := m.nextChange(b)
+			want, ok, amb, which := m.nextChange(b)
 			if amb {
+				e.note("NextGrandpaAuthorityChange not judged: first pending scheduled change of the chain vs all of them differ")
 				continue
 			}
 			got, err := e.gs.NextGrandpaAuthorityChange(e.headers[b].Hash(), uint(m.depth[b]))
@@ -780,7 +798,7 @@ func (e *c23Env) observe(m *c23Model, x c23Expect, ev c23Event) *c23Mismatch {
 			case err != nil && !errors.Is(err, ErrNoNextAuthorityChange):
 				return &c23Mismatch{"NextGrandpaAuthorityChange:error(" + c23ErrClass(err) + ")", fmt.Sprintf("NextGrandpaAuthorityChange(block %d) fails: %v", b, err)}
 			case err != nil && ok:
-				return &c23Mismatch{"NextGrandpaAuthorityChange:pending-change-not-reported", fmt.Sprintf("NextGrandpaAuthorityChange(block %d) reports no change, a change is pending at #%d", b, want)}
+				return &c23Mismatch{"NextGrandpaAuthorityChange:pending-change-not-reported(" + which + ")", fmt.Sprintf("NextGrandpaAuthorityChange(block %d) reports no change, a change is pending at #%d", b, want)}
 			case err == nil && !ok:
 				return &c23Mismatch{"NextGrandpaAuthorityChange:reports-a-change-that-is-not-pending", fmt.Sprintf("NextGrandpaAuthorityChange(block %d) = #%d, no change is pending on that chain", b, got)}
 			case err == nil && int(got) != want:
@@ -852,6 +870,17 @@ func c23Run(sc c23Scenario, hist []c23Event, pebble bool, outcome func(string)) 
 	}
 	defer e.close()
 	m := c23NewModel(sc.parent, sc.ann)
+	defer func() {
+		if outcome == nil {
+			return
+		}
+		if m.endsAmbiguous != "" {
+			outcome("not-judged GetSetIDByBlockNumber: " + m.endsAmbiguous)
+		}
+		for k := range e.notes {
+			outcome("not-judged " + k)
+		}
+	}()
 	round := uint64(0)
 	for step, ev := range hist {
 		fail := func(sig, desc string) *c23Finding {
@@ -989,6 +1018,9 @@ func TestVerif_C23(t *testing.T) {
 	r.Assumption("histories end (counted, not judged further) where Substrate does not import the block (second forced change on a fork; forced change depending on a pending scheduled change), where Substrate refuses the finalisation (overlapping scheduled changes on one chain: UnfinalizedAncestor; only 'nothing changes' is checked), and where a forced change announced at or below the finalised block is still pending")
 	r.Assumption("GetSetIDByBlockNumber is not judged once Substrate's own (set id, last block) list stops being increasing (forced change whose median finalised number is not above the previous hand-over); blocks that can never be imported (abandoned fork / below the finalised head) are skipped")
 
+	r.Assumption("the key-value store under the services is a map-backed database.Database (pebble's not-found error, copies on read and write); the self-test history and every reported witness are also executed on pebble's in-memory instance")
+	r.Assumption("NextGrandpaAuthorityChange(b) is read as: the smallest effective number of a pending change announced on the chain ending in b whose effective block is on that chain (<= number(b)); not judged where Substrate's fork-tree roots and the full pending set give different answers, after a refused finalisation, and while a forced change announced at or below the finalised block is pending")
+
 	// determinism self-test: one history twice
 	{
 		sc := c23Scenario{parent: []int{-1, 0, 1}, ann: []int{0, 2, 0}}
@@ -1041,7 +1073,9 @@ func TestVerif_C23(t *testing.T) {
 				return
 			}
 			if nontrivial {
-				r.Distinct(fmt.Sprint(sc.parent, sc.ann, hist))
+				h := fnv.New64a()
+				fmt.Fprint(h, sc.parent, sc.ann, hist)
+				r.Distinct(fmt.Sprintf("%016x", h.Sum64()))
 			}
 			for _, f := range fs {
 				mu.Lock()
